@@ -185,7 +185,7 @@ class StrSchema(Schema[StrProps]):
 
         try:
             re.compile(pattern)
-        except (re.error, OverflowError, RecursionError) as e:
+        except (re.error, ValueError, OverflowError, RecursionError) as e:
             message = f"Invalid pattern ({e})"
             raise DeclarationError(message) from None
 
